@@ -142,7 +142,9 @@ class Scope(Error):
             self._added.add(name)
 
     def nlri_add(self, name: str, command: str, data: Any) -> None:
-        self.get_route().nlri.add(data)
+        # add() answers False when the route can not hold the data (an IPv4 and an IPv6 prefix in one flow)
+        if not self.get_route().nlri.add(data):
+            raise ValueError(f"'{command} {data}' can not be added to this route\n  IPv4 and IPv6 can not be mixed")
 
     # Settings mode: deferred NLRI construction
 
